@@ -140,7 +140,7 @@ def strategy(tier):
 
 S_CLASSES = ["ReservablePriorityReqStore", "ReservableReqStore", "ReservablePriorityReqFilterStore", "BufferStore", "FleetStore",
              "Buffer", "Fleet", "SlottedConveyor", "ContinuousConveyor"]
-S_WEIGHTS = {"rp": 8, "rg": 5, "put": 8, "get": 5, "cp": 2, "cg": 2, "settle": 2, "adv": 4}
+S_WEIGHTS = {"rp": 8, "rg": 5, "put": 8, "get": 5, "cp": 2, "cg": 2, "settle": 2, "adv": 4, "peek": 2}
 
 
 def shrink_candidates(case):
